@@ -87,6 +87,29 @@ def run(tier, rep, ev):
     for junk in (b"", b"7z", b"7z\xbc\xaf\x27\x1c", b"7z\xbc\xaf\x27\x1c" + bytes(26), b"7z\xbc\xaf\x27\x1c\x00\x04" + b"\xff" * 24, bytes(64), b"\xff" * 200):
         add("junk", f"{len(junk)} bytes", junk, None, damage.SEQUENCES[0])
     outs = sandbox.run_cases(damage.run_sequence, cases, timeout=10, nproc=16, slice_size=24, mem=1 << 30, max_hangs=60)
+    # 'mem' = the call needed more than 1 GiB of ADDRESS SPACE.  A decoder may reserve a large dictionary it never touches (LZMA/LZMA2
+    # dictionary size is a coder property, up to 4 GiB by the format); what the property bounds is memory really used.  Every such case
+    # is run again with 8 GiB of address space and judged by the growth of its resident set (bound: 512 MiB) and the time limit.
+    again = [k for k, o in enumerate(outs) if o.status == "mem" or (o.status == "crash" and "ppmd" in meta[k]["archive"].lower())]
+    if again:
+        outs2 = sandbox.run_cases(damage.run_sequence_rss, [cases[k] for k in again], timeout=20, nproc=8, slice_size=1, mem=8 << 30)
+        reserved = 0
+        for k, o2 in zip(again, outs2):
+            if outs[k].status == "crash":
+                if o2.status == "ok":
+                    # the interpreter only dies when the reservation FAILS: pyppmd does not check the result of its allocation
+                    rep.violation("delegated-codec:pyppmd:alloc-unchecked", f"{meta[k]['archive']}: {meta[k]['what']}: interpreter terminated under a 1 GiB address-space "
+                                  "limit, clean with 8 GiB", {"archive": meta[k]["archive"], "what": meta[k]["what"], "seq": meta[k]["seq"], "image": cases[k][0]})
+                    outs[k] = sandbox.Outcome("ok", o2.value, "pyppmd allocation unchecked (known finding)", o2.wall)
+                continue
+            if o2.status == "ok" and o2.value.get("rss_growth_kb", 1 << 30) <= 512 * 1024:
+                outs[k] = sandbox.Outcome("ok", o2.value, "address space reserved, not used", o2.wall)
+                reserved += 1
+            elif o2.status == "ok":
+                outs[k].detail = f"resident set grew by {o2.value['rss_growth_kb'] // 1024} MiB. " + outs[k].detail
+            elif o2.status in ("hang", "crash"):
+                outs[k] = o2
+        ev.cov["address_space_reserved_but_not_used"] = reserved
     stats = {}
     for m, c, o in zip(meta, cases, outs):
         ev.case((m["archive"], m["what"], tuple(m["seq"])))
@@ -112,7 +135,7 @@ def run(tier, rep, ev):
     ev.cov["rule"] = (f"{len(archives)} archives (every codec family) x sampled bit flips/truncations/overwrites/swaps/inserts + structure mutations "
                       "(every NUMBER field x hostile values, sections dropped/duplicated/swapped, re-sealed) + splices + wrong passwords + junk; "
                       "x 6 call sequences; distinct = (archive, mutation, sequence)")
-    ev.assumptions += ["'bounded' = 10 s wall clock and 1 GiB address space for inputs of a few hundred bytes declaring < 1 MiB output"]
+    ev.assumptions += ["'bounded' = 10 s wall clock; memory: 1 GiB of address space, or - when a decoder reserves more without using it - 512 MiB of resident growth under 8 GiB of address space"]
 
 
 def replay(path, rep, ev):
